@@ -178,7 +178,7 @@ func (b *TemplateBuilder) buildTranslate() {
 	b.Translate = caseCodes
 	caseCodes = ""
 	for _, sy := range b.vnode.G.Symbols {
-		caseCodes += fmt.Sprintf("\tcase %d:\n \tconv = \"%s\"\n", sy.ID, parser.RemoveTempName(sy.Name))
+		caseCodes += fmt.Sprintf("\tcase %d:\n \tconv = %q\n", sy.ID, parser.RemoveTempName(sy.Name))
 	}
 	b.TranslateTrace = caseCodes
 	caseCode := ""
